@@ -209,29 +209,35 @@ def getSlice (s : Store K F) (a b : Option Int) : Except Err (List (FieldInfo ×
   let hi := sliceBound n b n
   ((List.range (hi - lo)).map (· + lo)).mapM (fun (i : Nat) => getField s (i : Int))
 
-/-- numpy's binary search (`npy_binsearch`) for one key on an array that need not be sorted:
-`goRight v` says that the search continues to the right of an element `v`. -/
+/-- numpy's binary search for one key (`npy_binsearch`, the branch-free variant of numpy >= 2.3,
+observed on numpy 2.5.3) on an array that need not be sorted; `goRight v` says that the key
+belongs to the right of an element `v`.  State: `base`, `len`:
+`while len > 1: half = len // 2; base += half if goRight(a[base + half]); len -= half`. -/
 def bisectGo (goRight : K → Bool) (ts : List K) : Nat → Nat → Nat → Nat
-  | 0, lo, _ => lo
-  | fuel + 1, lo, hi =>
-    if lo < hi then
-      let mid := lo + (hi - lo) / 2
-      match ts[mid]? with
-      | none => lo
-      | some v => if goRight v then bisectGo goRight ts fuel (mid + 1) hi
-                  else bisectGo goRight ts fuel lo mid
-    else lo
+  | 0, base, _ => base
+  | fuel + 1, base, len =>
+    if 1 < len then
+      let half := len / 2
+      match ts[base + half]? with
+      | none => base
+      | some v => bisectGo goRight ts fuel (if goRight v then base + half else base) (len - half)
+    else base
+
+/-- `... ; return base + goRight(a[base])` (0 for an empty array) -/
+def bisect (goRight : K → Bool) (ts : List K) : Nat :=
+  let base := bisectGo goRight ts ts.length 0 ts.length
+  match ts[base]? with
+  | some v => if goRight v then base + 1 else base
+  | none => base
 
 section
 variable [LT K] [DecidableLT K]
 
 /-- `np.searchsorted(ts, x, side="left")`: right of `v` iff `v < x` -/
-def bisectLeft (ts : List K) (x : K) : Nat :=
-  bisectGo (fun v => decide (v < x)) ts (ts.length + 1) 0 ts.length
+def bisectLeft (ts : List K) (x : K) : Nat := bisect (fun v => decide (v < x)) ts
 
 /-- `np.searchsorted(ts, x, side="right")`: right of `v` iff not `x < v` -/
-def bisectRight (ts : List K) (x : K) : Nat :=
-  bisectGo (fun v => !decide (x < v)) ts (ts.length + 1) 0 ts.length
+def bisectRight (ts : List K) (x : K) : Nat := bisect (fun v => !decide (x < v)) ts
 
 /-- argument of `extract_time_range`: `None`, a single number, or a pair with optional ends -/
 inductive TRange (K : Type) | all | upto (t : K) | pair (a b : Option K)
